@@ -56,6 +56,10 @@ N('H-property-vs-slot', ['C10'], 'series.py', 'Series.equals',
 N('H-identity-is', ['C10'], 'index.py', 'Index.equals',
   'if id(other) == id(self):', 'if other is self:')
 
+B('H5-hash-through-tolist', ['C10'], 'frame.py', 'FrameHE.__hash__',
+  'tuple(self.index.values),', 'tuple(self.index.values.tolist()),', 'H5', 'FrameHE.__hash__')
+N('H5-hash-through-slots', ['C10'], 'series.py', 'SeriesHE.__hash__',
+  'hash(tuple(self.index.values))', 'hash(tuple(self._index.values))')
 B('H6-memo-one-sided', ['C10'], 'index_level.py', 'IndexLevel.equals',
   'pair = (id(level_self.index), id(level_other.index))', 'pair = id(level_self.index)', 'H6', 'IndexLevel.equals')
 N('H6-memo-pair-swapped', ['C10'], 'index_level.py', 'IndexLevel.equals',
@@ -741,5 +745,17 @@ B('V-ih-reversed-not-reversed', ['C05', 'C02'], 'index_hierarchy.py', 'IndexHier
   'self._blocks.axis_values(1, reverse=True)', 'self._blocks.axis_values(1, reverse=False)', 'G.index-views', 'IndexHierarchy.__reversed__')
 N('V-iter-builtin', ['C02'], 'index.py', 'Index.__reversed__',
   'return reversed(self._labels)', 'return iter(self._labels[::-1])')
+
+# ---------------------------------------------------------------------------------- axis iteration (C03, C16)
+B('AI-items-keys-crossed', ['C03', 'C16'], 'frame.py', 'Frame._axis_array_items',
+  'keys = self._index if axis == 1 else self._columns', 'keys = self._columns if axis == 1 else self._index', 'E.axis-items', '_axis_array_items')
+B('AI-series-name-crossed', ['C03'], 'frame.py', 'Frame._axis_series',
+  '            labels = self._index\n        elif axis == 0:\n            index = self._index\n            labels = self._columns', '            labels = self._columns\n        elif axis == 0:\n            index = self._index\n            labels = self._index', 'E.axis-items', '_axis_series')
+B('AI-pairs-major-minor-swapped', ['C03', 'C16'], 'frame.py', 'Frame.to_pairs',
+  '            major = index_values\n            minor = columns_values\n        elif axis == 0:', '            major = columns_values\n            minor = index_values\n        elif axis == 0:', 'E.axis-items', 'to_pairs')
+B('AI-tuple-axis-fixed', ['C03'], 'frame.py', 'Frame._axis_tuple_items',
+  'self._axis_tuple(axis=axis, constructor=constructor)', 'self._axis_tuple(axis=1, constructor=constructor)', ('E.axis-items', 'I.same-name'), '_axis_tuple_items')
+N('AI-keys-if-statement', ['C03', 'C16'], 'frame.py', 'Frame._axis_series_items',
+  'keys = self._index if axis == 1 else self._columns', 'keys = self._columns if axis == 0 else self._index')
 
 VARIANTS = V
